@@ -63,6 +63,8 @@ class Scenario(apiworld.ApiWorld):
                     acts.append(("eof",))
                 if self.n["cmd"] < 1:
                     acts.append(("cmd",))
+                if self.net.live() and self.net.live()[-1].fail_after is None and self.p.get("failw"):
+                    acts.append(("failw",))
             acts.append(("shutdown",))
         return acts
 
@@ -106,6 +108,8 @@ class Scenario(apiworld.ApiWorld):
         elif op == "cmd":
             self.n["cmd"] += 1
             self.call(self.at.check_for_updates, "check_for_updates")
+        elif op == "failw":
+            self.net.live()[-1].fail_after = 0          # the next write on the live connection fails
         elif op == "shutdown":
             self.shutdown_state = "called"
 
@@ -250,6 +254,10 @@ def run(tier, seed, part=None):
         "refused+backoff": [["refuse"], ["tick"], ["accept"], ["answer"], ["answer"]],
         "pending-while-down": [["cmd"], ["accept"], ["answer"], ["answer"], ["answer"]],
         "eof+reconnect+refresh": A + [["eof"], ["cmd"], ["accept"], ["answer"], ["answer"], ["answer"]],
+        # a command (application task, not one of the socket's own tasks) hits a write error: its
+        # reset_connection() is in flight when shutdown() lands
+        "write-error-in-command": A + [["failw"], ["cmd"], ["accept"], ["answer"], ["answer"]],
+        "write-error-in-handshake": [["accept"], ["answer"], ["failw"], ["answer"], ["accept"], ["answer"]],
     }
     cap = 50 if tier == "quick" else 900
     for gen in (4, 5):
@@ -260,7 +268,7 @@ def run(tier, seed, part=None):
                              {"script_events": len(script), "shutdown": "at every turn boundary", "deviations": 1})
         if tier == "thorough":
             for depth, dev in [(9, 1), (7, 2)]:
-                params = {"gen": gen, "max_tick": 3}
+                params = {"gen": gen, "max_tick": 3, "failw": True}
                 res = explorer.explore(SPEC, params, depth, dev, time_cap=cap, seed=seed, label=f"at{gen}/d{depth}/v{dev}")
                 chk.add_explorer(f"at{gen}/free", SPEC, params, res, {"depth": depth, "deviations": dev})
     return chk.finish()
